@@ -199,7 +199,7 @@ func fatRunAll(c *core.Ctx, jobs []fatJob, module, cfgFile string, sha, raw bool
 		}
 	}
 	c.Extra["accepted_calls_per_action"] = accepted
-	for _, a := range []string{"Mkdir", "Create", "WriteAt", "Append", "Trunc", "Rename", "RenameDir", "Remove", "Fill"} {
+	for _, a := range []string{"Mkdir", "Create", "WriteAt", "Append", "Trunc", "Rename", "RenameDir", "Remove", "Fill", "Hold", "HeldWrite"} {
 		if accepted[a] == 0 {
 			c.Broken("vacuous: no %s call was accepted by the real filesystem", a)
 		}
@@ -230,6 +230,9 @@ func fatRunBatch(c *core.Ctx, jobs []fatJob, base, total int, module, cfgFile st
 				accepted[str(ev, "a")]++
 				if ev["a"] == "Rename" && (ev["p"] == "D" || ev["p"] == "E") {
 					accepted["RenameDir"]++
+				}
+				if ev["held"] == true {
+					accepted["HeldWrite"]++
 				}
 			}
 		}
